@@ -2,7 +2,9 @@
 // real net/http server — against a scripted raw loopback backend, and reports what the client saw, what status
 // the proxy recorded and which connection-state notifications were delivered.
 //
-//	cfg rht=<ms>                               ResponseHeaderTimeout of the proxy's transport
+//	cfg rht=<ms> [tr=own|keep]                 ResponseHeaderTimeout of the proxy's transport; tr=keep keeps the RoundTripper
+//	                                           forward.New chose (nil = a clone of http.DefaultTransport) and only switches
+//	                                           keep-alives off and sets the timeout on it; tr=own installs a fresh http.Transport
 //	resp s=<status> d=<n>:<digest> seed=<k> mode=cl|chunked|close|none [chunks=a,b,..] [slow=1] [rh=Name:pe(value)]...
 //	   -> <status> body=<n>:<digest> H <client headers> ev=<events> rec=<status>
 //	fail refused|reset-before|close-before|stall|garbage
@@ -94,8 +96,26 @@ func newScenario(cfg []string) (hx.Handler, string) {
 	s.be = be
 	rht := time.Duration(hx.KVInt(cfg, "rht", 3000)) * time.Millisecond
 	fwd := forward.New(false)
-	s.tr = &http.Transport{DisableCompression: true, DisableKeepAlives: true, ResponseHeaderTimeout: rht}
-	fwd.Transport = s.tr
+	if mode, _ := hx.KV(cfg, "tr"); mode == "keep" {
+		// what a caller gets who does not configure a transport: only make connections one-shot (the scripted
+		// backend serves one exchange per connection) and bound the wait for a response head
+		switch t := fwd.Transport.(type) {
+		case nil:
+			if d, ok := http.DefaultTransport.(*http.Transport); ok {
+				s.tr = d.Clone()
+				fwd.Transport = s.tr
+			}
+		case *http.Transport:
+			s.tr = t
+		}
+		if s.tr != nil {
+			s.tr.DisableKeepAlives = true
+			s.tr.ResponseHeaderTimeout = rht
+		}
+	} else {
+		s.tr = &http.Transport{DisableCompression: true, DisableKeepAlives: true, ResponseHeaderTimeout: rht}
+		fwd.Transport = s.tr
+	}
 	fwd.ErrorLog = log.New(io.Discard, "", 0)
 	wrap := http.HandlerFunc(func(w http.ResponseWriter, r *http.Request) {
 		s.mu.Lock()
@@ -157,7 +177,9 @@ func newScenario(cfg []string) (hx.Handler, string) {
 func (s *h) Close() {
 	s.srv.CloseClientConnections()
 	s.srv.Close()
-	s.tr.CloseIdleConnections()
+	if s.tr != nil {
+		s.tr.CloseIdleConnections()
+	}
 	s.be.Close()
 }
 
